@@ -113,8 +113,13 @@ func runOrder(c *mc.Ctx) {
 		sc := &scs[si]
 		var points []pointRec
 		base, err := execute(sc, nil, &points)
-		if err != nil && strings.HasPrefix(err.Error(), "PROCESS-STATE:") {
-			c.Violation("process-state:"+strings.SplitN(strings.TrimPrefix(sc.Name, "process-state:"), " ", 2)[0], sc.Name+"\n"+err.Error(), replay{Scenario: sc.Name})
+		if err != nil && strings.HasPrefix(sc.Name, "process-state:") {
+			// different bytes, or a failure of a computation that succeeds in a fresh process
+			key := "process-state:" + strings.SplitN(strings.TrimPrefix(sc.Name, "process-state:"), " ", 2)[0]
+			if !strings.HasPrefix(err.Error(), "PROCESS-STATE:") {
+				key += ":fails-after-the-process-handled-other-assets"
+			}
+			c.Violation(key, sc.Name+"\n"+err.Error(), replay{Scenario: sc.Name})
 			continue
 		}
 		if err != nil {
